@@ -3,7 +3,8 @@ package main
 // Reference VT100-subset emulator and reference model for C20. Imports nothing
 // from rare.
 //
-// Subset: printable runes, CR, LF (pure line feed, column kept), CSI n A
+// Subset: printable runes (a byte that is not part of a valid UTF-8 sequence is
+// one replacement glyph U+FFFD, one column), CR, LF (pure line feed, column kept), CSI n A
 // (cursor up, clamped at the first row), CSI 0 K / CSI K (erase from the
 // cursor to the end of the row), CSI ?25l / CSI ?25h (cursor hidden / shown),
 // SGR sequences (CSI ... m) as zero-width no-ops. Anything else is recorded as
@@ -74,7 +75,9 @@ func (e *emu) feed(b []byte) {
 	for i < len(b) {
 		ch, n := utf8.DecodeRune(b[i:])
 		if ch == utf8.RuneError && n <= 1 {
-			e.bad("invalid-utf8")
+			// a byte that is not part of a valid UTF-8 sequence: the terminal
+			// shows ONE replacement glyph for it, one column (see Assumptions)
+			e.put(utf8.RuneError)
 			i++
 			continue
 		}
@@ -254,14 +257,23 @@ func tokens(s string) (out []token, ok bool) {
 	return
 }
 
-// visibleOf returns the visible runes of a text (SGR sequences removed).
+// visibleOf returns the visible runes of a text (SGR sequences removed). A byte
+// that is not part of a valid UTF-8 sequence IN THE TEXT (an escape sequence
+// between two bytes interrupts a multi-byte sequence, for a terminal as for
+// Go's decoding) is one replacement glyph: it is returned as U+FFFD, so the
+// result is always valid UTF-8 with one rune per column.
 func visibleOf(s string) string {
 	toks, _ := tokens(s)
 	var sb strings.Builder
 	for _, t := range toks {
-		if t.visible {
-			sb.WriteString(t.s)
+		if !t.visible {
+			continue
 		}
+		if len(t.s) == 1 && t.s[0] >= 0x80 {
+			sb.WriteRune(utf8.RuneError)
+			continue
+		}
+		sb.WriteString(t.s)
 	}
 	return sb.String()
 }
@@ -288,4 +300,61 @@ func cutVisible(vis string, w int) string {
 func endsInsideSGR(s string) bool {
 	_, ok := tokens(s)
 	return !ok
+}
+
+// ---- text that is not valid UTF-8 ----
+
+// norm replaces every byte that is not part of a valid UTF-8 sequence by U+FFFD
+// (one per byte): what a terminal shows for it. The writers may pass such a
+// byte through or substitute U+FFFD for it; the visible result is the same, so
+// visible texts are compared after norm.
+func norm(s string) string {
+	if utf8.ValidString(s) {
+		return s
+	}
+	var sb strings.Builder
+	for len(s) > 0 {
+		r, n := utf8.DecodeRuneInString(s)
+		if r == utf8.RuneError && n <= 1 {
+			sb.WriteRune(utf8.RuneError)
+		} else {
+			sb.WriteString(s[:n])
+		}
+		s = s[n:]
+	}
+	return sb.String()
+}
+
+// isCutOf: "cut to a prefix": out is a prefix of in, byte for byte, or with
+// U+FFFD standing for a byte of in that is not part of a valid UTF-8 sequence
+// (each such byte either kept or replaced).
+func isCutOf(in, out string) bool {
+	if strings.HasPrefix(in, out) {
+		return true
+	}
+	i, j := 0, 0
+	for j < len(out) {
+		if i >= len(in) {
+			return false
+		}
+		r, n := utf8.DecodeRuneInString(in[i:])
+		if r == utf8.RuneError && n <= 1 {
+			switch {
+			case out[j] == in[i]:
+				j++
+			case strings.HasPrefix(out[j:], "\uFFFD"):
+				j += len("\uFFFD")
+			default:
+				return false
+			}
+			i++
+			continue
+		}
+		if !strings.HasPrefix(out[j:], in[i:i+n]) {
+			return false
+		}
+		i += n
+		j += n
+	}
+	return true
 }
